@@ -353,6 +353,12 @@ pub struct SpatialTrackDistances {
 impl SpatialTrackDistances {
 	#[must_use]
 	pub(crate) fn relative_distance(&self, distance: f32) -> f32 {
+		// with an empty or inverted range there is nothing to interpolate over
+		// (clamp would panic, the division would be 0/0): the emitter is either
+		// within the minimum distance or it is not
+		if self.max_distance <= self.min_distance {
+			return if distance < self.min_distance { 0.0 } else { 1.0 };
+		}
 		let distance = distance.clamp(self.min_distance, self.max_distance);
 		(distance - self.min_distance) / (self.max_distance - self.min_distance)
 	}
